@@ -298,6 +298,13 @@ def r19_5_signature_types(ctx):
         cases.append((f"uint{n}[]", sdk("ArrayDynamicType", child_type=uint(n)), f"uint{n}[]", None))
         cases.append((f"uint{n}[3]", sdk("ArrayStaticType", child_type=uint(n), static_length=3), f"uint{n}[3]", 3 * n // 8))
         cases.append((f"(uint{n},bool)", sdk("TupleType", child_types=[uint(n), sdk("BoolType")]), f"(uint{n},bool)", n // 8 + 1))
+    # tuples of every small arity keep their arity: a one-member tuple is not its member (its dynamic member sits behind a 2-byte head)
+    cases.append(("()", sdk("TupleType", child_types=[]), "()", 0))
+    cases.append(("(string)", sdk("TupleType", child_types=[sdk("StringType")]), "(string)", None))
+    cases.append(("(uint64)", sdk("TupleType", child_types=[uint(64)]), "(uint64)", 8))
+    cases.append(("((bool))", sdk("TupleType", child_types=[sdk("TupleType", child_types=[sdk("BoolType")])]), "((bool))", 1))
+    cases.append(("(uint8,string,bool)", sdk("TupleType", child_types=[uint(8), sdk("StringType"), sdk("BoolType")]), "(uint8,string,bool)", None))
+    cases.append(("(string)[]", sdk("ArrayDynamicType", child_type=sdk("TupleType", child_types=[sdk("StringType")])), "(string)[]", None))
     for name in sorted(refs | txns | {"bogus"}):
         cases.append((name, name, name if name != "bogus" else None, None))
     supported = {8, 16, 32, 64}
@@ -325,6 +332,38 @@ def r19_5_signature_types(ctx):
             why = f"is refused with {r.exc_text[:50]}" + ("" if must_refuse else "; PyTeal supports this type")
         ctx.check(ok, "R19.5", f"type_spec_from_algosdk[{label}]", f"`{label}` {why}", f.where, fact={"refused": must_refuse})
     ctx.require_min("R19.5", 35)
+
+
+def r19_7_returned_value_receiver(ctx):
+    from rules.abicommon import AbiWorld
+    from rules.c07 import _output
+
+    ctx.rule("R19.7", "the value an ABI subroutine returns is only ever stored into a receiver of exactly the returned type: ReturnedValue.store_into refuses every receiver whose type spec differs from the produced one - element type, length and arity of containers included - and accepts the equal one")
+    c = ctx.model.find_class("ReturnedValue", "pyteal.ast.abi.type")
+    f = c.methods["store_into"]
+    ctx.analysed(f.fq)
+    W = AbiWorld(ctx)
+    kinds = [("uint", 64), ("uint", 8), ("bool",), ("string",), ("sarr", ("uint", 64), 2), ("sarr", ("uint", 8), 3), ("sarr", ("uint", 64), 3), ("sarr", ("bool",), 2), ("darr", ("uint", 64)), ("darr", ("uint", 8)),
+             ("tuple", (("uint", 64), ("string",))), ("tuple", (("bool",), ("bool",), ("uint", 16))), ("tuple", (("uint", 64),))]
+
+    def extra(e, me):
+        raise Unknown()
+
+    for produced in kinds:
+        for recv in kinds:
+            psp = W.spec(produced)
+            sub = Sym("subroutine", methods={"get_declaration_by_option": lambda *a, **k: None})
+            selfs = Sym("self:ReturnedValue", attrs={"type_spec": psp, "computation": Sym("call", attrs={"subroutine": sub, "$isa": {"Expr", "SubroutineCall"}})}, methods={"produced_type_spec": lambda psp=psp: psp})
+            out = _output(W, recv)
+            out.attrs["_stored_value"] = Sym("var", methods={"store": lambda v: Rec("call", Rec("name", "STORE"), [v], {})})
+            try:
+                W.run(f.node, {"self": selfs, "output": out}, extra, f.fq)
+                outcome = "accepted"
+            except Raised:
+                outcome = "refused"
+            want = "accepted" if produced == recv else "refused"
+            ctx.check(outcome == want, "R19.7", f"store_into[{arc4.sig(produced)} into {arc4.sig(recv)}]", f"a returned {arc4.sig(produced)} stored into a {arc4.sig(recv)} receiver is {outcome}; the two layouts {'are the same' if produced == recv else 'differ, and nothing converts'}", f.where, fact={"outcome": outcome})
+    ctx.require_min("R19.7", 150)
 
 
 def r19_4_spec_equality(ctx):
@@ -377,6 +416,7 @@ def run(ctx):
     r19_2_callers(ctx)
     r19_3_set(ctx)
     r19_5_signature_types(ctx)
+    r19_7_returned_value_receiver(ctx)
     r19_4_spec_equality(ctx)
     from rules import c07 as _c07
 
